@@ -91,15 +91,17 @@ func (x *Exec) evalBool(st *State, cl *Clause, c *evalCtx) (res *Term) {
 	c.where = cl.Line
 	defer func() {
 		if r := recover(); r != nil {
+			// A clause that cannot be evaluated (a renamed local, a vanished field ...) proves nothing and assumes
+			// nothing: as a goal it is dropped (the function is reported as not verified), as an assumption it is skipped.
 			if ee, ok := r.(evalErr); ok {
 				x.fail("contract error: %s", ee.msg)
-				res = tFalse
+				res = tErr
 				return
 			}
 			if ue, ok := r.(error); ok {
 				if _, ok := ue.(unsupportedErr); ok {
 					x.fail("contract error at %s: %v", cl.Line, ue)
-					res = tFalse
+					res = tErr
 					return
 				}
 			}
